@@ -263,6 +263,13 @@ func c09(c *wk.Ctx) {
 			if k == 1 {
 				sc = rpcScenario{Callers: 2, PerCaller: 2, Kinds: []string{"vector-object", "bool"}, Batch: 2, PContainer: 1, PGzipRes: 1, Delays: map[string]int{}}
 			}
+			if k == 5 || k == 6 || (!c.Quick() && (k == 7 || k == 8)) {
+				// a slow caller: held for more than a second (thorough: 3 s and 11 s) between its socket write and its
+				// wait for the answer, which the server has long sent — the answer must still be there for it
+				hold := map[int]int{5: 1300000, 6: 1300000, 7: 3200000, 8: 11000000}[k]
+				point := map[int]string{5: "call.sent", 6: "send.written", 7: "call.sent", 8: "call.sent"}[k]
+				sc = rpcScenario{Callers: 2, PerCaller: 1, Kinds: []string{"object", "vector-long"}, Batch: 1, Delays: map[string]int{point: hookAlways + hold}}
+			}
 			c.Begin(idx, toJSON(sc))
 			c09case(c, idx, r, sc)
 		}
